@@ -1,6 +1,6 @@
 """C15 — a fixed-limit Head/Tail view never exceeds its limit, even between two diffs."""
 import re
-from ..facts import strip, ecall_matches, contains, find_all, fmt, mentions_field, has_arith
+from ..facts import strip, ecall_matches, contains, find_all, fmt, mentions_field, has_arith, local_depends_on
 from .. import conds
 from .common import *
 from .vecdiff import *
@@ -21,11 +21,13 @@ META = {
     "assumptions": [],
     "not_decided": "sizes of shrinking groups and of appended slices (integer arithmetic over limit, len, index)",
 }
+META["explanation"] += " R15.5 a Reset emitted by the Head / Tail translators is cut to the limit (truncate / take / local cutting helper with a limit-dependent argument, or skip relative to the skipped vector's own length; a skip position computed from the previous length in a length-changing arm is a violation)."
 
 
 def run(ctx):
     F = ctx.facts
     ads = find_adapters(F)
+    register_roles(ctx, ads)
     n = 0
     for name in ("head", "tail"):
         a = ads[name]
@@ -35,6 +37,7 @@ def run(ctx):
         n += r15_1(ctx, a)
         per_diff_length(ctx, "R15.1b", a)
         r15_34(ctx, a)
+        r15_5(ctx, a)
     ctx.floor("R15.1", n, 22)
     r15_2(ctx)
     # the bound also rests on the Head/Tail structural rules and on the order in which buffered diffs leave
@@ -226,3 +229,61 @@ def r15_34(ctx, a):
                                  "%s translator, arm %s: room is made for min(limit, n) items but n = `%s` items are pushed back: when more than `limit` items are affected the view is refilled beyond its limit" % (a.name, v, fmt(gc, 3)))
                 else:
                     ctx.undecided("R15.3", f, "growth<=room:%s" % v, where, "multiplicities `%s` (grow) and `%s` (shrink) not comparable" % (fmt(gc, 3), fmt(sc, 3)))
+
+
+LEN_CHANGING = {"Append", "Clear", "PushFront", "PushBack", "PopFront", "PopBack", "Insert", "Remove", "Truncate", "Reset"}
+
+
+def r15_5(ctx, a):
+    """a Reset emitted by Head / Tail replaces the consumer's view wholesale, so its payload is cut to the limit: it passes
+    through truncate / take / a local cutting helper with a limit-dependent argument, or through `skip(n)` with
+    n = len(of that same vector) - limit. A `skip` whose position is computed from the *previous* length while the skipped
+    vector already contains the diff (length-changing arms) keeps more than `limit` items."""
+    F = ctx.facts
+    f = a.translator
+    b = f.built
+    sw, info, arms = arms_of(b)
+    LIMIT, PREV = 2, 3
+    lim = lambda x: x[0] == "param" and x[1] == LIMIT
+    n = 0
+    for v, t in arms.items():
+        region = arm_region(b, sw, t)
+        for loc, s in b.iter_stmts(sorted(region)):
+            if not (s["k"] == "assign" and s["rv"]["k"] == "agg" and s["rv"].get("variant") == "Reset" and (s["rv"].get("adt") or "").endswith("VectorDiff")):
+                continue
+            n += 1
+            op = s["rv"]["ops"][0]
+            e = b.expr_of_op(op)
+            where = b.line_at(loc)
+            key = "reset-cut-to-limit:%s" % v
+            dep = contains(e, lim)
+            if not dep and op["k"] in ("move", "copy"):
+                dep = local_depends_on(b, op["place"]["l"], lim) if not op["place"]["proj"] else dep
+                if not dep:
+                    x = strip(e)
+                    # in-place cut of the matched payload: `values.truncate(limit)` before the aggregate
+                    for blk2, t2 in b.calls(r"::(truncate|split_off)$", blocks=sorted(region)):
+                        if contains(b.expr_of_op(t2["args"][0]), lambda y: y == x) or fmt(strip(b.expr_of_op(t2["args"][0])), 6) == fmt(x, 6):
+                            if any(contains(b.expr_of_op(a_), lim) for a_ in t2["args"][1:]) and b.dominates(blk2, loc[0]):
+                                dep = True
+            skips = find_all(e, lambda y: y[0] == "call" and ecall_matches(y, r"GenericVector::<.*>::skip$"))
+            cuts = find_all(e, lambda y: y[0] == "call" and (ecall_matches(y, r"::(truncate|take)$") or (F.fns.get(UT + "::" + str(y[2] or y[1])) is not None)) and any(contains(z, lim) for z in y[3][1:]))
+            if cuts or (dep and not skips):
+                ctx.holds("R15.5", f, key, where, "the Reset payload is cut with the limit (%s)" % fmt(e, 4))
+            elif skips:
+                pos = skips[0][3][1]
+                has_len = contains(pos, lambda y: y[0] == "call" and ecall_matches(y, r"::len$"))
+                uses_prev = contains(pos, lambda y: y[0] == "param" and y[1] == PREV)
+                if contains(pos, lim) and has_len:
+                    ctx.holds("R15.5", f, key, where, "skip position `%s` is relative to the vector's own length" % fmt(pos, 4))
+                elif contains(pos, lim) and uses_prev and v in LEN_CHANGING:
+                    ctx.violated("R15.5", f, key, where,
+                                 "%s translator, arm %s: the emitted Reset carries `%s`, whose start is computed from the length *before* this %s while the skipped vector already contains it: the consumer's view is replaced by more than `limit` items" % (
+                                     a.name, v, fmt(e, 4), v))
+                else:
+                    ctx.undecided("R15.5", f, key, where, "skip position `%s` not recognised" % fmt(pos, 4))
+            elif not contains(e, lambda y: y[0] in ("unknown", "local", "cycle", "undef")):
+                ctx.violated("R15.5", f, key, where, "%s translator, arm %s: the emitted Reset carries `%s`, which does not depend on the limit: the consumer's view is replaced by the unlimited contents" % (a.name, v, fmt(e, 4)))
+            else:
+                ctx.undecided("R15.5", f, key, where, "payload `%s` not recognised" % fmt(e, 4))
+    ctx.floor("R15.5", n, 1)
